@@ -101,7 +101,8 @@ PROPS["C06"] = dict(
                 "WNTRSimulator._get_all_tank_controls (which links are closed at min/max head before and after each solve, re-open thresholds) are "
                 "executed symbolically from the real source; lemma: overshoot below two seconds of the tank's flow.",
     trusted_base=[RT_TRUST],
-    not_decided=["tanks with a volume curve: update_tank_heads / get_volume use np.interp (clamping); not under proof (pre-survey finding 18)",
+    not_decided=["tanks with a volume curve: update_tank_heads / get_volume interpolate a table (np.interp + end-segment extension); not under proof, bounded stand-in "
+                 "C06.volume_curve_tanks only (pre-survey finding 18 was repaired by fix 3e76046b and its scenario is part of that stand-in)",
                  "first step: no backtracking at t=0"],
     assumptions=[],
 )
